@@ -20,7 +20,7 @@ ASSUMPTIONS = [
     "the generator is a strict subset of the class the property states, so a failure is never the generator's fault",
     "weakest fit for the technique (no schedule or fault in the property): claimed as bounded liveness of whole fault-free executions",
 ]
-TIERS = {"quick": {"worlds": 1400, "wall": 160, "limit": 120.0}, "thorough": {"worlds": 30000, "wall": 1700, "limit": 400.0}}
+TIERS = {"quick": {"worlds": 2000, "wall": 160, "limit": 120.0}, "thorough": {"worlds": 30000, "wall": 1700, "limit": 400.0}}
 GATES = ("nontrivial", "banded", "cfg.default", "cfg.newton_type", "cfg.step_solver_type", "cfg.step_control_type")
 CFG = [{}, {"newton_type": "Full"}, {"newton_type": "ActiveSet"}, {"step_solver_type": "Standard"}, {"step_solver_type": "Extended"}, {"step_solver_type": "Asymmetric"}, {"step_control_type": "Exact"}]
 
